@@ -255,6 +255,15 @@ fn many_errors(idx: u64) -> Option<String> {
     let base = EDGE_TEXTS.len() as u64;
     let counts = [255u64, 256, 257, 512, 65536];
     let k = idx.checked_sub(base)?;
+    if k == 2 * counts.len() as u64 {
+        // an accepted program with thousands of warnings: printing them must not use up the arena
+        let mut s = String::new();
+        for i in 0..1500 {
+            s.push_str(&format!("make zz_w{i} get {i}\n"));
+        }
+        s.push_str("shout(\"done\")\n");
+        return Some(s);
+    }
     let n = *counts.get((k / 2) as usize)?;
     let mut s = String::new();
     if k % 2 == 0 {
@@ -325,6 +334,10 @@ fn stage_cli(ctx: &mut Ctx) {
         ];
         if !cuts.is_empty() {
             modes.push(("stdin-in-bursts", vec!["-"], Some(src.as_str()), "<stdin>"));
+        }
+        if idx % 4 == 3 {
+            // file mode with a path that is not a regular file: the text arrives through a pipe
+            modes.push(("file-dev-stdin", vec!["/dev/stdin"], Some(src.as_str()), "/dev/stdin"));
         }
         if src.len() > 120_000 {
             // one argument may not exceed 128 KiB on Linux
